@@ -75,7 +75,12 @@ inline void sweep(const std::string &kind, const std::string &part, const Oct &a
 		const std::string &reg = L.at(p);
 		bool jd = judged(reg);
 		g_cur_region = reg; g_cur_pos = (long)p;
-		for (unsigned m : mk) {
+		// format-aware substitutions: the first octet of an MPI value is the point-format octet of EC keys,
+		// signatures and ephemeral keys (0x04 uncompressed, 0x40 native, 0x02/0x03 compressed)
+		std::vector<unsigned> mk2(mk);
+		{ const Region *rg = L.region_at(p);
+		  if (rg && rg->off == p && rsuffix(reg) == "mpi_val") for (unsigned v : {0x00u, 0x02u, 0x03u, 0x04u, 0x40u, 0x41u, 0xFFu}) { unsigned m = art[p] ^ v; if (m && std::find(mk2.begin(), mk2.end(), m) == mk2.end()) mk2.push_back(m); } }
+		for (unsigned m : mk2) {
 			t[p] = art[p] ^ m; g_cur_mask = m;
 			Acc a = acc(t);
 			st.evals++;
@@ -208,13 +213,19 @@ inline bool make_binding(const KeyMat &prim, const KeyMat &subk, int hashalgo, t
 	return sign_hash(prim, hashalgo, hash, trailer, left, sig, err);
 }
 
+// RFC 6637 section 12.2.1 / FIPS 186: minimum hash size gpg insists on for a signing key (0: none)
+inline unsigned gpg_min_hash_bits(const KeyMat &k) {
+	if (k.algo == 17) return k.qbits;
+	if (k.algo == 19) return (k.name == "p384") ? 384 : (k.name == "p521" || k.name == "bp512") ? 512 : 256;
+	return 0;
+}
 // export pub|uid|selfsig once per key for the gpg judge; returns file name (relative to g_cwd) or ""
 static std::map<std::string, std::string> g_gpgkeys;
 inline std::string gpg_keyfile(const KeyMat &k) {
 	auto it = g_gpgkeys.find(k.name); if (it != g_gpgkeys.end()) return it->second;
 	std::string fn;
 	Oct sig, uidp; std::string uid = "c20 " + k.name + " <" + k.name + "@c20.invalid>";
-	SelfSigOpt o; o.sigtime = k.ctime + 10;
+	SelfSigOpt o; o.sigtime = k.ctime + 10; o.hashalgo = gpg_min_hash_bits(k) > 384 ? 10 : gpg_min_hash_bits(k) > 256 ? 9 : 8;
 	if (make_selfsig(k, uid, o, sig)) {
 		PGP::PacketUidEncode(uid, uidp);
 		Oct blk = cat(cat(k.pub, uidp), sig);
